@@ -213,6 +213,20 @@ def Acc.add (a : Acc) (field su : String) (se : Int) : Res Acc :=
     else .error .badUnit
   else .error .badUnit
 
+/-- `t.isascii() and t.isdecimal()` : a non-empty run of ASCII digits -/
+def asciiDigits (t : List Char) : Bool := !t.isEmpty && t.all Char.isDigit
+
+/-- the strict exponent test of `parse_units`:
+`b[2].isascii() and (b[2][1:] if b[2][0] == "-" else b[2]).isdecimal()` (for non-empty `b[2]`) -/
+def strictExp (t : List Char) : Bool :=
+  match t with
+  | '-' :: r => asciiDigits r
+  | r => asciiDigits r
+
+/-- does the first loop of `parse_units` raise on this (non-empty) exponent text?  Either the strict test
+(when present in the source) fails, or `int()` does. -/
+def badExpText (t : List Char) : Bool := (puStrictExponent && !strictExp t) || (pyInt t).isNone
+
 /-- exponent pass of `parse_units` for one block: `if b[2] == "": b[2] = "1"`, `b[2] = int(b[2])`,
 `if b[0] == "/": b[2] = -b[2]`; `none` = `int()` raises -/
 def blockExp (b : Block) : Option Int :=
@@ -273,8 +287,8 @@ def parseUnitsCore (s : List Char) : Res Units :=
   else if puRejectsInnerBlank && s.any isBlank then .error .badSyntax   -- whitespace inside the unit text is rejected
   else
     let blocks := scanBlocks s [] ⟨puFirstBlockSep, [], []⟩ false
-    -- first loop: every exponent text must be readable by `int()`
-    if blocks.any (fun b => !b.exp.isEmpty && (pyInt b.exp).isNone) then .error .badSyntax
+    -- first loop: every exponent text must pass the strict test (when present) and be readable by `int()`
+    if blocks.any (fun b => !b.exp.isEmpty && badExpText b.exp) then .error .badSyntax
     else
       match ({} : Acc).addBlocks blocks with
       | .error e => .error e
